@@ -613,7 +613,7 @@ def check_C12(A, R, tier):
             if v["target"] == ("self", A.L.history_field) and v["op"] in ("get", "contains_key"):
                 readers.append((entry, label, r, v))
     # need the startup / consider / success-event runs
-    A.startup_run()
+    A.startup_runs()
     A.handler_runs()
     A.event_runs("event_job_finished_success")
     readers = []
@@ -657,9 +657,12 @@ def cmp_rules(A, R):
     """the three comparisons of a record with a current quantity"""
     C = A.classes()
     # (a) input list: textual comparison of hist(InputListKey(K)) with strategy.get_input_list(K)
-    st = A.startup_run()
     found = 0
-    for v in st.by_kind("cmp"):
+    seen_cmp = set()
+    for v in [x for st in A.startup_runs() for x in st.by_kind("cmp")]:
+        if (v["fn"], v["bb"]) in seen_cmp:
+            continue
+        seen_cmp.add((v["fn"], v["bb"]))
         a, b = v["a"], v["b"]
         ca, cb = value_class(a), value_class(b)
         pair = [ca, cb]
